@@ -3,7 +3,7 @@
     QidMapProofs.v, Mode.v. *)
 From Coq Require Import NArith String List Bool.
 From P9V Require Import Base.Str gen.ConstGen gen.FsGen Fsx.Readdir Fsx.Qid Fsx.QidArith Fsx.QidConc Fsx.MapperConc
-     Fsx.QidMap Fsx.QidMapProofs Fsx.Mode Fsx.FsGenSpec.
+     Fsx.QidMap Fsx.QidMapProofs Fsx.Mode Fsx.FsGenSpec20.
 Import ListNotations.
 Open Scope list_scope.
 Open Scope N_scope.
